@@ -244,6 +244,46 @@ func (o *out) c17MaskOf(dir, recv, name, marker, coqName string) {
 	o.f("Definition %s : Z := %d. (* %s:%s.%s : mask in condition on %s *)\n", coqName, val, dir, recv, name, marker)
 }
 
+// c17SwitchCase: condition of the kth case clause of the nth tag-less switch statement of the function.
+func (o *out) c17SwitchCase(fs funcSpec, nth, k int) {
+	p, fd := findFunc(fs.dir, fs.recv, fs.name)
+	if fd == nil {
+		o.brokenDef(fs.coqName, "function not found")
+		return
+	}
+	var found ast.Expr
+	i := 0
+	ast.Inspect(fd.Body, func(n ast.Node) bool {
+		if found != nil {
+			return false
+		}
+		if sw, ok := n.(*ast.SwitchStmt); ok && sw.Tag == nil {
+			if i == nth {
+				if k < len(sw.Body.List) {
+					if cc, ok := sw.Body.List[k].(*ast.CaseClause); ok && len(cc.List) == 1 {
+						found = cc.List[0]
+					}
+				}
+				return false
+			}
+			i++
+		}
+		return true
+	})
+	if found == nil {
+		o.brokenDef(fs.coqName, fmt.Sprintf("no case #%d in tag-less switch #%d of %s", k, nth, fs.name))
+		return
+	}
+	t := o.newTr(p, fs)
+	c := t.expr(found)
+	if t.err != nil {
+		o.brokenDef(fs.coqName, t.err.Error())
+		return
+	}
+	o.f("Definition %s %s : %s :=\n  %s.\n(* from %s:%s.%s : switch case %s *)\n", fs.coqName, fs.params, fs.retType, c, fs.dir, fs.recv, fs.name,
+		strings.ReplaceAll(printNode(p.fset, found), "*)", "* )"))
+}
+
 func init() {
 	generators["C17_gen"] = func(o *out) {
 		const d = "lib/zipslicer"
@@ -268,6 +308,8 @@ func init() {
 		fdL := map[string]string{"size": "size", "end.Signature": "end_sig", "end.TotalCDCount": "total", "end.CDSize": "cdsize",
 			"end.CDOffset": "cdoff", "loc64.Signature": "loc_sig", "end64.Signature": "end64_sig"}
 		o.exprOfAssign(funcSpec{dir: d, name: "FindDirectory", coqName: "fd_pos", params: "(size : Z)", retType: "Z", leaves: fdL}, "pos", 0)
+		o.condOf(funcSpec{dir: d, name: "FindDirectory", coqName: "fd_short", params: "(pos size : Z)", retType: "bool",
+			leaves: map[string]string{"pos": "pos", "size": "size"}}, "if:pos < 0")
 		o.condOf(funcSpec{dir: d, name: "FindDirectory", coqName: "fd_end_sig_bad", params: "(end_sig : Z)", retType: "bool", leaves: fdL}, "end.Signature")
 		o.condOf(funcSpec{dir: d, name: "FindDirectory", coqName: "fd_is_zip64", params: "(total cdsize cdoff : Z)", retType: "bool", leaves: fdL}, "end.TotalCDCount")
 		o.condOf(funcSpec{dir: d, name: "FindDirectory", coqName: "fd_loc_sig_bad", params: "(loc_sig : Z)", retType: "bool", leaves: fdL}, "loc64.Signature")
@@ -278,7 +320,7 @@ func init() {
 		// ---------------- ReadWithDirectory
 		rwL := map[string]string{"size": "size", "len(cd)": "cd_len", "binary.LittleEndian.Uint32(cd)": "sig",
 			"f.UncompressedSize": "usize", "f.CompressedSize": "csize", "f.Offset": "offset",
-			"len(extra)": "extra_len", "tag": "tag", "needUSize": "need_u", "needCSize": "need_c", "needOffset": "need_o"}
+			"len(extra)": "extra_len", "tag": "tag", "needed": "needed", "needUSize": "need_u", "needCSize": "need_c", "needOffset": "need_o"}
 		rwT := map[string]string{"needUSize": "bool", "needCSize": "bool", "needOffset": "bool"}
 		rw := func(coq, params, ret string) funcSpec {
 			return funcSpec{dir: d, name: "ReadWithDirectory", coqName: coq, params: params, retType: ret, leaves: rwL, types: rwT}
@@ -294,10 +336,14 @@ func init() {
 		// inside the loop `size` is the record size (shadows the archive size)
 		o.condOf(rw("rwd_rec_overrun", "(size extra_len : Z)", "bool"), "if:len(extra)")
 		o.condOf(rw("rwd_is_zip64_tag", "(tag : Z)", "bool"), "if:tag")
-		o.condOf(rw("rwd_take_u", "(need_u : bool) (size : Z)", "bool"), "if:needUSize")
-		o.condOf(rw("rwd_take_c", "(need_c : bool) (size : Z)", "bool"), "if:needCSize", 0)
-		o.condOf(rw("rwd_take_o", "(need_o : bool) (size : Z)", "bool"), "if:needOffset", 0)
-		o.condOf(rw("rwd_missing_z64", "(need_c need_o : bool)", "bool"), "if:needCSize", 1)
+		o.condOf(rw("rwd_exact_rec", "(size needed : Z)", "bool"), "if:needed")
+		o.condOf(rw("rwd_seq_u", "(need_u : bool)", "bool"), "if:needUSize", 0)
+		o.condOf(rw("rwd_seq_c", "(need_c : bool)", "bool"), "if:needCSize", 0)
+		o.condOf(rw("rwd_seq_o", "(need_o : bool)", "bool"), "if:needOffset", 0)
+		o.condOf(rw("rwd_take_u", "(need_u : bool) (size : Z)", "bool"), "if:needUSize", 1)
+		o.condOf(rw("rwd_take_c", "(need_c : bool) (size : Z)", "bool"), "if:needCSize", 1)
+		o.condOf(rw("rwd_take_o", "(need_o : bool) (size : Z)", "bool"), "if:needOffset", 1)
+		o.condOf(rw("rwd_missing_z64", "(need_c need_o : bool)", "bool"), "if:needCSize", 2)
 		o.c17CallArg(d, "", "ReadWithDirectory", "rwd_read_order", "binary.Read", 2, rdClasses)
 
 		// ---------------- readLocalHeader / readDataDesc / GetTotalSize
@@ -306,9 +352,11 @@ func init() {
 		ddL := map[string]string{"f.Offset": "offset", "lfhSize": "lfh_size", "f.CompressedSize": "csize", "f.UncompressedSize": "usize",
 			"len(f.lfhName)": "name_len", "len(f.lfhExtra)": "extra_len", "len(f.ddb)": "dd_len",
 			"desc.Signature": "d_sig", "desc.UncompressedSize": "d_usize", "desc.CompressedSize": "d_csize",
-			"desc64.CompressedSize": "d64_csize", "desc64.UncompressedSize": "d64_usize"}
+			"desc64.CompressedSize": "d64_csize", "desc64.UncompressedSize": "d64_usize", "is64": "is64", "ambiguous": "ambiguous",
+			"f.lfh.ReaderVersion": "lfh_reader", "rerr == nil": "read_ok", "rerr != nil": "read_failed"}
+		ddT := map[string]string{"is64": "bool", "ambiguous": "bool", "rerr == nil": "bool", "rerr != nil": "bool"}
 		dd := func(coq, params, ret string) funcSpec {
-			return funcSpec{dir: d, recv: "File", name: "readDataDesc", coqName: coq, params: params, retType: ret, leaves: ddL, calls: conv}
+			return funcSpec{dir: d, recv: "File", name: "readDataDesc", coqName: coq, params: params, retType: ret, leaves: ddL, types: ddT, calls: conv}
 		}
 		o.c17MaskOf(d, "File", "readDataDesc", "f.lfh.Flags", "dd_flag_mask")
 		o.condOf(funcSpec{dir: d, recv: "File", name: "readDataDesc", coqName: "dd_absent", params: "(masked : Z)", retType: "bool",
@@ -316,8 +364,12 @@ func init() {
 		o.exprOfAssign(dd("dd_lfh_size", "(name_len extra_len : Z)", "Z"), "lfhSize", 0)
 		o.exprOfAssign(dd("dd_pos", "(offset lfh_size csize : Z)", "Z"), "pos", 0)
 		o.condOf(dd("dd_sig_bad", "(d_sig : Z)", "bool"), "if:desc.Signature")
-		o.condOf(dd("dd_is_64", "(usize csize d_usize d_csize : Z)", "bool"), "if:desc.UncompressedSize")
-		o.condOf(dd("dd_64_invalid", "(usize csize d64_usize d64_csize : Z)", "bool"), "if:desc64.CompressedSize")
+		o.exprOfAssign(dd("dd_is_64", "(usize csize d_usize d_csize : Z)", "bool"), "is64", 0)
+		o.exprOfAssign(dd("dd_ambiguous", "(is64 : bool) (usize lfh_reader : Z)", "bool"), "ambiguous", 0)
+		o.condOf(dd("dd_try_64", "(is64 ambiguous : bool)", "bool"), "if:is64")
+		o.c17SwitchCase(dd("dd_64_valid", "(read_ok : bool) (usize csize d64_usize d64_csize : Z)", "bool"), 0, 0)
+		o.c17SwitchCase(dd("dd_64_read_error", "(ambiguous read_failed : bool)", "bool"), 0, 1)
+		o.c17SwitchCase(dd("dd_64_invalid", "(ambiguous : bool)", "bool"), 0, 2)
 		o.c17ReturnExpr(funcSpec{dir: d, recv: "File", name: "GetTotalSize", coqName: "total_size_expr",
 			params: "(name_len extra_len dd_len csize : Z)", retType: "Z", leaves: ddL}, 2, 0)
 
@@ -390,6 +442,12 @@ func init() {
 			leaves: map[string]string{"len(contents)": "contents_len"}}, "deflate", 0)
 		o.condOf(funcSpec{dir: d, recv: "Directory", name: "GetOriginalDirectory", coqName: "god_is_new", params: "(end_sig : Z)", retType: "bool",
 			leaves: map[string]string{"d.end.Signature": "end_sig"}}, "if:d.end.Signature")
+		o.condOf(funcSpec{dir: d, recv: "Directory", name: "GetOriginalDirectory", coqName: "god_emit_end64", params: "(end64_sig : Z)", retType: "bool",
+			leaves: map[string]string{"end64.Signature": "end64_sig"}}, "if:end64.Signature", 1)
+		o.condOf(funcSpec{dir: d, recv: "Directory", name: "GetOriginalDirectory", coqName: "god_emit_loc64", params: "(loc64_sig : Z)", retType: "bool",
+			leaves: map[string]string{"loc64.Signature": "loc64_sig"}}, "if:loc64.Signature", 2)
+		o.condOf(funcSpec{dir: d, recv: "Directory", name: "GetOriginalDirectory", coqName: "god_trim_end", params: "(eoff loc64_sig : Z)", retType: "bool",
+			leaves: map[string]string{"loc64.Signature": "loc64_sig", "end.CDOffset": "eoff"}}, "if:end.CDOffset", 0)
 		o.c17CallArg(d, "Directory", "GetOriginalDirectory", "god_wd_weod_arg", "WriteDirectory", 1, map[string]int{"nil": 0})
 		o.c17CallArg(d, "Directory", "GetOriginalDirectory", "god_write_order", "binary.Write", 2, map[string]int{"end64": 3, "loc64": 1, "end": 2})
 		srL := map[string]string{"p": "p", "r.pos": "pos"}
